@@ -234,8 +234,13 @@ class DecodeDeterminism(Unit):
         for k in sorted(first):
             yield "C09", "same-result-whatever-was-decoded-before:%s" % k, all(r.get(k) == first[k] for r in runs[1:])
             o = first[k]
-            if not k.startswith("decode:") and isinstance(o, list) and len(o) == 4 and o[0] != "raised":
+            if not k.startswith("decode:") and isinstance(o, list) and len(o) >= 4 and o[0] != "raised":
                 yield "C09", "build_cdb-repeated-on-the-same-object-with-equal-inputs-gives-equal-bytes:%s" % k, isinstance(o[3], list) and o[3][0] == o[3][1] == o[3][2] == o[0]
+                for r in runs[1:]:
+                    fr = r.get(k)
+                    if isinstance(fr, list) and len(fr) >= 5 and isinstance(fr[4], list) and fr[4][:1] == ["fresh-datain"]:
+                        yield "C09", "a-command-built-after-an-equal-one-was-discarded-has-an-all-zero-data-in-buffer:%s" % k, all(x is True for x in fr[4][1:])
+                        break
 
 
 class Retention(Unit):
@@ -653,6 +658,29 @@ def observe_one(cls):
         out.append([binascii.hexlify(keep).decode(), binascii.hexlify(bytes(second)).decode(), binascii.hexlify(bytes(first)).decode(), binascii.hexlify(cdb).decode() == out[0]])
     except Exception as ex:
         out.append(["raised", type(ex).__name__])
+    # a command built after an equal one was used and discarded starts from the same buffers (all zero): nothing an
+    # earlier command's device wrote can reach a later command (large allocation lengths included)
+    import gc
+    import inspect
+
+    sig = inspect.signature(cls.__init__)
+    aname = next((n for n in ("alloclen", "alloc_len") if n in sig.parameters), None)
+    if aname is not None:
+        fresh = []
+        for n in (96, 4096, 16384):
+            kw = _ctor_kwargs(cls, key, vals, bytearray(8))
+            kw[aname] = n
+            try:
+                c1 = cls(C.find_opcode(s, how), **kw)
+                if isinstance(c1.datain, bytearray):
+                    c1.datain[:] = b"\xee" * len(c1.datain)
+                del c1
+                gc.collect()
+                c2 = cls(C.find_opcode(s, how), **kw)
+                fresh.append(not any(c2.datain))
+            except Exception as ex:
+                fresh.append("raised %s" % type(ex).__name__)
+        out.append(["fresh-datain"] + fresh)
     return out
 
 
